@@ -26,7 +26,7 @@ def design_models(ctx: core.Ctx, full: bool = True) -> None:
     if full:
         cfgs += ["MC_Scheme_single3.cfg"]
         if not ctx.quick:
-            cfgs += ["MC_Scheme_single4.cfg"]
+            cfgs += ["MC_Scheme_single4.cfg", "MC_Scheme_single5.cfg", "MC_Scheme_ideal5.cfg"]
     for c in cfgs:
         ctx.model_check("Scheme", c, workers=16)
     ctx.expect_refuted("Scheme", "MC_Scheme_dev_asShipped.cfg", "C01_Bounds", workers=8)
